@@ -519,6 +519,15 @@ def canonical(v):
 
 def main(argv):
     """entry point: any internal error of the pipeline is itself reported in the interface's terms (the property is then not shown to hold)"""
+    # every temporary file of the run (the properties' harnesses and plasTeX itself use tempfile) lives in one
+    # directory of the run's own, removed when the run ends -- pool workers are terminated and never run atexit hooks
+    import tempfile
+    import shutil
+    scratch = os.path.join(BUILD, 'tmp', 'run-%d' % os.getpid())
+    os.makedirs(scratch, exist_ok=True)
+    os.environ['TMPDIR'] = scratch
+    tempfile.tempdir = scratch
+    cwd = os.getcwd()
     try:
         return _main(argv)
     except SystemExit:
@@ -533,6 +542,12 @@ def main(argv):
         log(traceback.format_exc()[-1500:])
         log('VIOLATION property=%s replay=%s no-failing-input-found' % (pid, path))
         return 1
+    finally:
+        try:
+            os.chdir(cwd)
+        except OSError:
+            pass
+        shutil.rmtree(scratch, ignore_errors=True)
 
 
 def _main(argv):
